@@ -14,11 +14,16 @@ thread, or one call of a random constructor (layer, individual, population, job-
       optimiser that draws from algorithm_globals.random, so that the repetition asks for the seed that is still
       active); run B later, in a permuted call order, under a differently seeded ambient state.  The seeded
       optimisation functions of mutation.py (optimize_layer_of_individual, optimize_all_parameters_of_individual)
-      are called directly as well, as a fifth constructor-like kind of job;
+      are called directly as well, as a fifth constructor-like kind of job.  Every solve is additionally run under the
+      two extreme LEGAL schedules of its single worker (runs E and D: reprokit.EagerExecutor runs each task to
+      completion inside submit(), reprokit.DeferredExecutor queues the tasks until the first result is requested; both
+      are ThreadPoolExecutor(max_workers=1) subclasses whose tasks run on the worker thread): state shared between
+      the submitting thread and a task - e.g. an operator's generator drawn from inside the task - gives different
+      results under different schedules (key solve:single-worker-schedule);
   (b) in three child processes started with PYTHONHASHSEED = 0, 1, 4242, each with its own ambient state and its
       own call order.
 The canonical fingerprint of everything returned AND the complete decision log of every `Random` the package
-created must be identical in all six runs (vlib/reprokit.py).  A difference is an oracle violation; the replay
+created must be identical in all runs (eight for a solve) (vlib/reprokit.py).  A difference is an oracle violation; the replay
 is the job, the pair of runs and the first differing place.
 
 Correspondence: the logged traces replay through the Coq model (QV.Repro.ReproCheck / QV.Evqe.C20Check): from the
@@ -248,6 +253,11 @@ def five_runs(ctx, jobs, rk, shards=2):
     for i in range(n):
         runs["A"][i] = rk.run_job(jobs[i], ambient=1 + 2 * i)
         runs["C"][i] = rk.run_job(jobs[i], ambient=None)  # immediately again, nothing re-seeded in between
+        if jobs[i]["kind"] == "solve":
+            # the other legal schedules of the ONE worker: every task run to completion inside submit() / all tasks
+            # queued until the first result is requested (reprokit.EagerExecutor, DeferredExecutor)
+            runs.setdefault("E", [None] * n)[i] = rk.run_job(jobs[i], ambient=3 + 2 * i, executor="eager")
+            runs.setdefault("D", [None] * n)[i] = rk.run_job(jobs[i], ambient=4 + 2 * i, executor="deferred")
     second = list(range(n))
     order_rng.shuffle(second)
     for i in second:
@@ -273,7 +283,7 @@ def judge(ctx, jobs, runs, rk, origin="generated"):
                 continue
             diff = rk.compare_runs(a, rs[i])
             if diff:
-                where = {"B": "in-process", "C": "back-to-back"}.get(label, "across-hashseed")
+                where = {"B": "in-process", "C": "back-to-back", "E": "single-worker-schedule", "D": "single-worker-schedule"}.get(label, "across-hashseed")
                 bad.add(i)
                 what = (f"{job['kind']}: two runs of the same seeded call differ ({where}: run A of this process vs "
                         f"{label_of(label)}); "
@@ -288,7 +298,9 @@ def judge(ctx, jobs, runs, rk, origin="generated"):
 def label_of(label):
     return {"A": "this process, first pass (ambient generators freshly seeded)",
             "C": "this process, immediate back-to-back repetition (ambient generators only advanced by a draw, nothing re-seeded)",
-            "B": "this process, second pass (permuted call order, ambient generators seeded differently)"}.get(label, f"child process PYTHONHASHSEED={label[1:]}")
+            "B": "this process, second pass (permuted call order, ambient generators seeded differently)",
+            "E": "this process, one-worker executor that runs every task to completion inside submit() (eager schedule)",
+            "D": "this process, one-worker executor that queues the tasks and runs them in submission order when the first result is requested (deferred schedule)"}.get(label, f"child process PYTHONHASHSEED={label[1:]}")
 
 
 def correspond(ctx, jobs, runs, skip):
